@@ -405,7 +405,8 @@ public:
             const XalanDOMString&   theTargetString,
             const XPath&            theMatchPattern,
             const XalanDOMString&   thePatternString,
-            XPath::eMatchScore      thePriority);
+            XPath::eMatchScore      thePriority,
+            size_type               theAlternative = 0);
 
     static eElementToken
     getElementNameToken(const XalanDOMString&   name);
